@@ -1,7 +1,7 @@
 //! Protocol-layer histories over a scripted `Interface` (C15–C18)
 use crate::ev::Ev;
 use crate::gen::Rng;
-use crate::show;
+use crate::text::{self as show, list, split_list};
 use ross_protocol::convert_packet::ConvertPacket;
 use ross_protocol::event::{bcm::*, bootloader::*, button::*, configurator::*, gateway::*, general::*, internal::*, message::*, programmer::*, relay::*};
 use ross_protocol::interface::{usart::UsartError, Interface, InterfaceError};
@@ -13,10 +13,11 @@ use std::panic::{catch_unwind, AssertUnwindSafe};
 use std::rc::Rc;
 
 type Log = Rc<RefCell<Vec<String>>>;
-pub struct ScriptIface { rx: VecDeque<Option<Option<Packet>>>, tx: VecDeque<bool>, log: Log }
+pub struct ScriptIface { rx: VecDeque<Option<Option<Packet>>>, tx: VecDeque<bool>, log: Log, left: Rc<RefCell<usize>> }
 impl Interface for ScriptIface {
     fn try_get_packet(&mut self) -> Result<Packet, InterfaceError> {
-        match self.rx.pop_front() { None | Some(None) => Err(InterfaceError::NoPacketReceived), Some(Some(None)) => Err(InterfaceError::UsartError(UsartError::ReadError)), Some(Some(Some(p))) => Ok(p) }
+        let r = self.rx.pop_front(); *self.left.borrow_mut() = self.rx.len();
+        match r { None | Some(None) => Err(InterfaceError::NoPacketReceived), Some(Some(None)) => Err(InterfaceError::UsartError(UsartError::ReadError)), Some(Some(Some(p))) => Ok(p) }
     }
     fn try_send_packet(&mut self, p: &Packet) -> Result<(), InterfaceError> {
         let ok = self.tx.pop_front().unwrap_or(true);
@@ -50,43 +51,172 @@ fn xchg_all(pr: &mut Protocol<ScriptIface>, kind: usize, p: Packet, cap: bool, l
     })
 }
 
-fn gen_addr(r: &mut Rng, own: u16) -> u16 { match r.below(4) { 0 => own, 1 => 0xffff, _ => { let a = r.u16(); a } } }
-fn gen_packet(r: &mut Rng, own: u16) -> Packet {
-    if r.below(3) == 0 { Packet { is_error: r.below(5) == 0, device_address: gen_addr(r, own), data: { let n = r.below(6) as usize; r.bytes(n) } } }
-    else { let e = Ev::gen(r.below(16) as usize, r); let mut p = e.to_packet(); for &k in e.pad_mask() { p.data[k] = 0; } if r.below(3) != 0 { p.device_address = gen_addr(r, own); } p }
+
+fn gen_addr(r: &mut Rng, own: u16) -> u16 {
+    match r.below(4) {
+        0 => own,
+        1 => 0xffff,
+        _ => r.u16(),
+    }
 }
 
-pub fn one(r: &mut Rng) -> String {
-    let own: u16 = match r.below(4) { 0 => 0xffff, 1 => 0, _ => r.u16() };
-    let rxq: Vec<Option<Option<Packet>>> = (0..r.below(8)).map(|_| match r.below(8) { 0 => None, 1 => Some(None), _ => Some(Some(gen_packet(r, own))) }).collect();
-    let txq: Vec<bool> = (0..r.below(6)).map(|_| r.below(4) != 0).collect();
-    let rxs: Vec<String> = rxq.iter().map(|x| match x { None => "n".into(), Some(None) => "e".into(), Some(Some(p)) => show::packet(p) }).collect();
-    let txs: String = txq.iter().map(|b| if *b { 'o' } else { 'e' }).collect();
-    let log: Log = Rc::new(RefCell::new(vec![]));
-    let mut pr = Protocol::new(own, ScriptIface { rx: rxq.into_iter().collect(), tx: txq.into_iter().collect(), log: log.clone() });
-    let mut ops: Vec<String> = vec![]; let mut results: Vec<String> = vec![]; let mut next_token = 0u32; let mut live: Vec<u32> = vec![];
-    for _ in 0..r.below(12) {
+fn gen_packet(r: &mut Rng, own: u16) -> Packet {
+    if r.below(3) == 0 {
+        let n = r.below(6) as usize;
+        Packet { is_error: r.below(5) == 0, device_address: gen_addr(r, own), data: r.bytes(n) }
+    } else {
+        let mut p = Ev::gen(r.below(16) as usize, r).ref_packet();
+        if p.data.len() > 40 {
+            p.data.truncate(40);
+        }
+        if r.below(3) != 0 {
+            p.device_address = gen_addr(r, own);
+        }
+        if r.below(12) == 0 {
+            p.is_error = true;
+        }
+        p
+    }
+}
+
+/// `<own> <rx queue> <tx queue> <ops>`; handler ids for `rm` are chosen with a reference allocator (least free id)
+pub fn gen(r: &mut Rng) -> String {
+    let own: u16 = match r.below(4) {
+        0 => 0xffff,
+        1 => 0,
+        _ => r.u16(),
+    };
+    let rxs: Vec<String> = (0..r.below(9))
+        .map(|_| match r.below(8) {
+            0 => "n".to_string(),
+            1 => "e".to_string(),
+            _ => show::packet(&gen_packet(r, own)),
+        })
+        .collect();
+    let txs: String = (0..r.below(6)).map(|_| if r.below(4) != 0 { 'o' } else { 'e' }).collect();
+    let mut ops: Vec<String> = vec![];
+    let mut next_token = 0u32;
+    let mut live: Vec<u32> = vec![];
+    for _ in 0..r.below(14) {
         match r.below(10) {
-            0 | 1 | 2 => { let cap = r.flip(); let token = next_token; next_token += 1;
+            0 | 1 | 2 => {
+                let cap = r.flip();
+                let token = next_token;
+                next_token += 1;
                 // packets the handler transmits from inside its callback: never to our own address (C15: "to other devices")
-                let sends: Vec<Packet> = (0..r.below(3)).map(|_| { let mut p = gen_packet(r, own); if p.device_address == own { p.device_address = own.wrapping_add(1); } if own == 0xffff && p.device_address == 0xffff { p.device_address = 1; } p }).collect();
-                let ss: Vec<String> = sends.iter().map(show::packet).collect();
-                let l = log.clone();
-                let id = pr.add_packet_handler(Box::new(move |p: &Packet, pr: &mut Protocol<ScriptIface>| { l.borrow_mut().push(format!("c{}/{}", token, show::packet(p))); for q in sends.iter() { let _ = pr.send_packet(q); } }), cap).unwrap();
-                live.push(id); ops.push(format!("add/{}/{}/{}", if cap { 'c' } else { 'o' }, token, if ss.is_empty() { "-".into() } else { ss.join("+") })); results.push(format!("id{}", id)); }
-            3 => { let id = if !live.is_empty() && r.below(3) != 0 { let k = r.below(live.len() as u64) as usize; live.remove(k) } else { r.below(6) as u32 };
-                let res = pr.remove_packet_handler(id); live.retain(|x| *x != id); ops.push(format!("rm/{}", id)); results.push(match res { Ok(()) => "ok".into(), Err(e) => perr(&e).to_string() }); }
-            4 | 5 | 6 => { let res = catch_unwind(AssertUnwindSafe(|| pr.tick())); ops.push("tick".into()); results.push(match res { Err(_) => "panic".into(), Ok(Ok(())) => "ok".into(), Ok(Err(e)) => perr(&e).to_string() }); }
-            7 => { let p = gen_packet(r, own); let res = catch_unwind(AssertUnwindSafe(|| pr.send_packet(&p))); ops.push(format!("send/{}", show::packet(&p))); results.push(match res { Err(_) => "panic".into(), Ok(Ok(())) => "ok".into(), Ok(Err(e)) => perr(&e).to_string() }); }
-            8 => { let (kind, cap, p) = (r.below(16) as usize, r.flip(), gen_packet(r, own)); ops.push(format!("xchg/{}/{}/{}", kind, if cap { 'c' } else { 'o' }, show::packet(&p)));
-                let res = catch_unwind(AssertUnwindSafe(|| xchg_one(&mut pr, kind, p, cap, &log)));
-                results.push(match res { Err(_) => "panic".into(), Ok(Ok(e)) => format!("ok({})", e.show()), Ok(Err(e)) => perr(&e).to_string() }); }
-            _ => { let (kind, cap, p) = (r.below(16) as usize, r.flip(), gen_packet(r, own)); ops.push(format!("xall/{}/{}/{}", kind, if cap { 'c' } else { 'o' }, show::packet(&p)));
-                let res = catch_unwind(AssertUnwindSafe(|| xchg_all(&mut pr, kind, p, cap, &log)));
-                results.push(match res { Err(_) => "panic".into(), Ok(Ok(v)) => format!("ok({})", if v.is_empty() { "-".to_string() } else { v.iter().map(|e| e.show()).collect::<Vec<_>>().join("+") }), Ok(Err(e)) => perr(&e).to_string() }); }
+                let ss: Vec<String> = (0..r.below(3))
+                    .map(|_| {
+                        let mut p = gen_packet(r, own);
+                        if p.device_address == own {
+                            p.device_address = own.wrapping_add(1);
+                        }
+                        if own == 0xffff && p.device_address == 0xffff {
+                            p.device_address = 1;
+                        }
+                        show::packet(&p)
+                    })
+                    .collect();
+                let id = (0u32..).find(|i| !live.contains(i)).unwrap();
+                live.push(id);
+                ops.push(format!("add/{}/{}/{}", if cap { 'c' } else { 'o' }, token, list(&ss, "+")));
+            }
+            3 => {
+                let id = if !live.is_empty() && r.below(3) != 0 {
+                    let k = r.below(live.len() as u64) as usize;
+                    live[k]
+                } else {
+                    r.below(6) as u32
+                };
+                live.retain(|x| *x != id);
+                ops.push(format!("rm/{}", id));
+            }
+            4 | 5 | 6 => ops.push("tick".into()),
+            7 => ops.push(format!("send/{}", show::packet(&gen_packet(r, own)))),
+            8 => ops.push(format!("xchg/{}/{}/{}", r.below(16), if r.flip() { 'c' } else { 'o' }, show::packet(&gen_packet(r, own)))),
+            _ => ops.push(format!("xall/{}/{}/{}", r.below(16), if r.flip() { 'c' } else { 'o' }, show::packet(&gen_packet(r, own)))),
         }
     }
+    format!("{:04x} {} {} {}", own, list(&rxs, ","), if txs.is_empty() { "-".into() } else { txs }, list(&ops, ";"))
+}
+
+fn res_str(res: std::thread::Result<Result<(), ProtocolError>>) -> String {
+    match res {
+        Err(_) => "panic".into(),
+        Ok(Ok(())) => "ok".into(),
+        Ok(Err(e)) => perr(&e).to_string(),
+    }
+}
+
+/// run the history against the real `Protocol`; observation: `<result;…> <log,…> <rx items left>`
+pub fn exec(t: &[&str]) -> Option<String> {
+    let own = u16::from_str_radix(t.first()?, 16).ok()?;
+    let rxq: VecDeque<Option<Option<Packet>>> = split_list(t.get(1)?, ',')
+        .iter()
+        .map(|s| match *s {
+            "n" => Some(None),
+            "e" => Some(Some(None)),
+            _ => show::parse_packet(s).map(|p| Some(Some(p))),
+        })
+        .collect::<Option<_>>()?;
+    let txq: VecDeque<bool> = if *t.get(2)? == "-" { VecDeque::new() } else { t[2].chars().map(|c| c == 'o').collect() };
+    let log: Log = Rc::new(RefCell::new(vec![]));
+    let left = Rc::new(RefCell::new(rxq.len()));
+    let mut pr = Protocol::new(own, ScriptIface { rx: rxq, tx: txq, log: log.clone(), left: left.clone() });
+    let mut results: Vec<String> = vec![];
+    for op in split_list(t.get(3)?, ';') {
+        let a: Vec<&str> = op.split('/').collect();
+        match a[0] {
+            "add" => {
+                let cap = *a.get(1)? == "c";
+                let token: u32 = a.get(2)?.parse().ok()?;
+                let sends: Vec<Packet> = split_list(a.get(3)?, '+').iter().map(|s| show::parse_packet(s)).collect::<Option<_>>()?;
+                let l = log.clone();
+                let id = pr
+                    .add_packet_handler(
+                        Box::new(move |p: &Packet, pr: &mut Protocol<ScriptIface>| {
+                            l.borrow_mut().push(format!("c{}/{}", token, show::packet(p)));
+                            for q in sends.iter() {
+                                let _ = pr.send_packet(q);
+                            }
+                        }),
+                        cap,
+                    )
+                    .ok()?;
+                results.push(format!("id{}", id));
+            }
+            "rm" => {
+                let id: u32 = a.get(1)?.parse().ok()?;
+                results.push(res_str(catch_unwind(AssertUnwindSafe(|| pr.remove_packet_handler(id)))));
+            }
+            "tick" => results.push(res_str(catch_unwind(AssertUnwindSafe(|| pr.tick())))),
+            "send" => {
+                let p = show::parse_packet(a.get(1)?)?;
+                results.push(res_str(catch_unwind(AssertUnwindSafe(|| pr.send_packet(&p)))));
+            }
+            "xchg" => {
+                let (kind, cap, p) = (a.get(1)?.parse().ok()?, *a.get(2)? == "c", show::parse_packet(a.get(3)?)?);
+                let res = catch_unwind(AssertUnwindSafe(|| xchg_one(&mut pr, kind, p, cap, &log)));
+                results.push(match res {
+                    Err(_) => "panic".into(),
+                    Ok(Ok(e)) => format!("ok({})", e.show()),
+                    Ok(Err(e)) => perr(&e).to_string(),
+                });
+            }
+            "xall" => {
+                let (kind, cap, p) = (a.get(1)?.parse().ok()?, *a.get(2)? == "c", show::parse_packet(a.get(3)?)?);
+                let res = catch_unwind(AssertUnwindSafe(|| xchg_all(&mut pr, kind, p, cap, &log)));
+                results.push(match res {
+                    Err(_) => "panic".into(),
+                    Ok(Ok(v)) => format!("ok({})", list(&v.iter().map(|e| e.show()).collect::<Vec<_>>(), "+")),
+                    Ok(Err(e)) => perr(&e).to_string(),
+                });
+            }
+            _ => return None,
+        }
+        let last = results.pop()?;
+        results.push(format!("{}@{}#{}", last, *left.borrow(), log.borrow().len()));
+    }
+    drop(pr);
     let l = log.borrow();
-    format!("proto {:04x} {} {} {} => {} {}", own, if rxs.is_empty() { "-".into() } else { rxs.join(",") }, if txs.is_empty() { "-".into() } else { txs },
-        if ops.is_empty() { "-".into() } else { ops.join(";") }, if results.is_empty() { "-".into() } else { results.join(";") }, if l.is_empty() { "-".into() } else { l.join(",") })
+    Some(format!("{} {}", list(&results, ";"), list(&l, ",")))
 }
